@@ -87,29 +87,14 @@ Proof.
 Qed.
 Print Assumptions c14_crash_prefix.
 
-(* a refused commit (writeCommitTestHook) or a kill at the commit cut changes nothing:
-   this is the [mode <> 0] case of the simulation, stated on its own *)
-Theorem c14_refused_commit_no_effect : forall c rs mode reqs,
-  Inv c rs -> group_valid rs reqs = true -> mode <> 0 ->
-  forall sc, snd (observe (fst (run_group c mode reqs)) sc) = ref_observe (ref_of sc rs).
-Proof.
-  intros c rs mode reqs HI Hg Hm sc. destruct (group_valid_forall rs reqs Hg) as [Hd Hall].
-  destruct (run_group_refused c rs mode reqs HI Hd Hall Hm) as (c' & codes & Hr & HI' & _).
-  rewrite Hr. exact (proj1 (Inv_refines _ _ HI' sc)).
-Qed.
-Print Assumptions c14_refused_commit_no_effect.
-
 (* the monitor evaluated on implementation traces is 0 on every trace the model can produce
-   for a Raft-valid history, and the mismatch test accepts the model's own trace *)
-Theorem c14_model_satisfies_monitor : forall ops, hist_valid [] ops = true ->
-  C14_monitor (C14Case (combine ops (mdl_run mdl0 ops))) = 0.
-Proof. exact model_satisfies_monitor. Qed.
+   for a Raft-valid history (refused commits and kills included: they change nothing), and
+   the mismatch test accepts the model's own trace *)
+Theorem c14_model_satisfies_monitor : forall ops,
+  (hist_valid [] ops = true -> C14_monitor (C14Case (combine ops (mdl_run mdl0 ops))) = 0)
+  /\ C14_mismatch (C14Case (combine ops (mdl_run mdl0 ops))) = false.
+Proof. intro ops. split; [exact (model_satisfies_monitor ops)|exact (model_no_mismatch ops)]. Qed.
 Print Assumptions c14_model_satisfies_monitor.
-
-Theorem c14_model_no_mismatch : forall ops,
-  C14_mismatch (C14Case (combine ops (mdl_run mdl0 ops))) = false.
-Proof. exact model_no_mismatch. Qed.
-Print Assumptions c14_model_no_mismatch.
 
 (* Known finding C14-K1.  The full statement — the same conclusion for every history whose
    requests are Raft-valid, WITHOUT excluding the K1 signature — is false of the faithful
